@@ -111,11 +111,28 @@ def build(stack, net, cfg):
     raise ValueError(stack)
 
 
+_SERDE_FAMILY = ("serde", "pickle", "legacy_serializer_pair", "legacy_deserializer_only")
+_SINGLES = ("prefix", "default_noreply_off", "utf8", "unicode_keys", "serde", "pickle", "legacy_serializer_pair",
+            "legacy_deserializer_only", "timeouts", "no_delay", "tls", "keepalive")
+
+
+def all_configs(tier):
+    """quick: the 14 listed configurations; thorough: also every compatible pair of single-option ones."""
+    out = dict(CONFIGS)
+    if tier == "thorough":
+        for a, b in itertools.combinations(_SINGLES, 2):
+            if a in _SERDE_FAMILY and b in _SERDE_FAMILY:
+                continue
+            out[f"{a}+{b}"] = {**CONFIGS[a], **CONFIGS[b]}
+    return out
+
+
 def calls(cfgname):
     """(label, callable(obj)) for every operation x keyword-argument combination."""
-    key = UK if cfgname == "unicode_keys" else K
+    parts = cfgname.split("+")
+    key = UK if "unicode_keys" in parts else K
     values = [b"v", "café"]  # the str is legal only under a non-ASCII encoding: every stack must agree on that
-    if cfgname in ("serde", "pickle", "legacy_serializer_pair"):
+    if any(p in ("serde", "pickle", "legacy_serializer_pair") for p in parts):
         values += ["text", 17, ("t", 1)]
     out = []
 
@@ -241,7 +258,7 @@ def same_result(a, b):
 
 def _worker(job, chk):
     cfgname, state = job
-    cfg = CONFIGS[cfgname]
+    cfg = all_configs("thorough")[cfgname]
     for call in calls(cfgname):
         base = observe("client", cfg, state, call)
         chk.add()
@@ -302,11 +319,12 @@ def run(chk):
     chk.rule = RULE
     chk.assumptions = ["arguments are passed by keyword (positional order differs between the classes and is not part of the statement)",
                        "a RetryingClient with 2 attempts repeats the command list of a raising call (not judged when the argument is a one-shot iterator, which the first attempt has consumed)"]
-    runner.parallel(chk, _worker, [(c, s) for c in CONFIGS for s in STATES])
+    chk.info["configurations"] = len(all_configs(chk.tier))
+    runner.parallel(chk, _worker, [(c, s) for c in all_configs(chk.tier) for s in STATES])
 
 
 def replay(detail):
-    cfg = CONFIGS[detail["config"]]
+    cfg = all_configs("thorough")[detail["config"]]
     if detail.get("first"):
         call = next(c for c in FOLLOW_UPS if c[0] == detail["call"])
         first = next(c for c in FIRST_CALLS if c[0] == detail["first"])
